@@ -149,9 +149,45 @@ def run_case(report, scen, rng, adversarial=False):
         oracle(report, scen, rec3)
         record(report, rec3)
         report.count("sql_multi_filter_reqs")
+        # the same REQ on LMDB: every filter is served as it is when asked alone (whatever its neighbours in the REQ name)
+        kv_multi(report, scen, fs[:5])
+    for k in range(4):
+        # neighbours that differ in *which* fields they name: kinds / authors / tags / ids / window only
+        pool = [{"kinds": sorted({e["kind"] for e in rng.sample(evs, min(2, len(evs)))})} if evs else {"kinds": [1]},
+                {"authors": [rng.choice(evs)["pubkey"]]} if evs else {"authors": [gen.AUTHORS[0]]},
+                gen.gen_filter(rng, evs, limit_pool=(None, None, 100)),
+                {"since": gen.T0 - 10, "until": gen.T0 + 100000},
+                {"#t": [rng.choice(["a", "ab", "x"])]}]
+        rng.shuffle(pool)
+        kv_multi(report, scen, pool[:rng.choice([2, 3, 4, 5])])
+
+
+def kv_multi(report, scen, fs):
+    res = scen.kv.ask_req(fs)
+    if res is None:
+        return
+    for f, got, alone in res:
+        lim = alone.get("limit")
+        a = alone["ids"]
+        truncated = lim is not None and len(a) >= lim
+        if truncated:
+            continue
+        if set(got) != set(a) or len(got) != len(set(got)):
+            missing = sorted(set(a) - set(got))
+            extra = sorted(set(got) - set(a))
+            report.property_failure(
+                "kv: filter %r inside the REQ %r is answered differently than alone: %d missing, %d extra, %d delivered twice"
+                % (f, fs, len(missing), len(extra), len(got) - len(set(got))),
+                {"backend": "kv", "multi": True, "filters": fs, "events": scen.events}, None)
+    report.case(("kv-multi", repr(fs)), nontrivial=len(res) > 1, sample={"backend": "kv", "filters_in_req": len(fs), "answered": len(res)})
+    report.count("kv_multi_filter_reqs")
 
 
 def replay_one(report, scen, r):
+    if r.get("multi"):
+        scen.load(r["events"])
+        kv_multi(report, scen, r["filters"])
+        return
     scen.load(r["events"])
     if r["backend"] == "kv":
         rec = scen.ask_kv(r["filters"][0])
